@@ -889,6 +889,20 @@ func ruleStopSweep(c *Ctx, rid string) {
 					if cc := callCommon(ins); cc != nil && calleeName(cc) == nConnClose {
 						closeCall = ins
 					}
+					// a helper that closes the connection it is given on every path
+					if call, ok := ins.(*ssa.Call); ok && closeCall == nil {
+						if h := staticCallee(call.Common()); h != nil && inFramework(h) && h.Blocks != nil {
+							if mustPassCall(h, func(cc *ssa.CallCommon) bool {
+								if calleeName(cc) != nConnClose || len(cc.Args) == 0 {
+									return false
+								}
+								_, isPar := strip(cc.Args[0]).(*ssa.Parameter)
+								return isPar
+							}) {
+								closeCall = ins
+							}
+						}
+					}
 					if g, ok := ins.(*ssa.Go); ok {
 						if t := staticCallee(g.Common()); t != nil && c.P.reachesCallNamed(t, nConnClose) {
 							hasGo = true
